@@ -131,7 +131,7 @@ Definition known_F1c : list row :=
 Definition known_F1 : list row := known_F1a ++ known_F1b ++ known_F1c.
 
 (** flipped by hand when the repair of group c is applied to /repo *)
-Definition fixed_F1c : bool := false.
+Definition fixed_F1c : bool := true.
 
 (** [fa]/[fb]: the repair of the group is in the tree, its rows are no longer excused *)
 Definition guard_F1 (fa fb : bool) (r : row) : bool :=
